@@ -45,7 +45,9 @@ Record pw := {
   pw_cancel_tasks : list nat;
   pw_cancel_cos : list nat;
   pw_running_tasks : list (nat * nat);     (* RUNNING_TASKS: task -> worker *)
-  pw_spin : bool                           (* a worker entered its endless idle nap: the pass never returns *)
+  pw_spin : bool;                          (* a worker entered its endless idle nap: the pass never returns *)
+  pw_tpool : list nat;                     (* pool each task was submitted to *)
+  pw_defects : list nat                    (* defect tags raised on the branches that misbehave (see below) *)
 }.
 
 Definition queue_cap : Z := 256.
@@ -65,54 +67,65 @@ Definition pw0 (clock : Z) (cfgs : list (Z * Z * Z)) : pw :=
      pw_cq := add_handles n (OWS.init (Nat.max n 1) queue_cap);
      pw_tbody := []; pw_tprio := [];
      pw_pools := map (fun c => mk_pool (fst (fst c)) (snd (fst c)) (snd c)) cfgs;
-     pw_cur := O; pw_cancel_tasks := []; pw_cancel_cos := []; pw_running_tasks := []; pw_spin := false |}.
+     pw_cur := O; pw_cancel_tasks := []; pw_cancel_cos := []; pw_running_tasks := []; pw_spin := false; pw_tpool := []; pw_defects := [] |}.
 
 (* ---- record updates ---- *)
 Definition set_pools (x : pw) (ps : list pool) : pw :=
   {| pw_clock := pw_clock x; pw_ts := pw_ts x; pw_cn := pw_cn x; pw_workers := pw_workers x; pw_wpool := pw_wpool x;
      pw_tq := pw_tq x; pw_cq := pw_cq x; pw_tbody := pw_tbody x; pw_tprio := pw_tprio x; pw_pools := ps;
      pw_cur := pw_cur x; pw_cancel_tasks := pw_cancel_tasks x; pw_cancel_cos := pw_cancel_cos x;
-     pw_running_tasks := pw_running_tasks x; pw_spin := pw_spin x |}.
+     pw_running_tasks := pw_running_tasks x; pw_spin := pw_spin x; pw_tpool := pw_tpool x; pw_defects := pw_defects x |}.
 Definition set_workers (x : pw) (ws : list worker) : pw :=
   {| pw_clock := pw_clock x; pw_ts := pw_ts x; pw_cn := pw_cn x; pw_workers := ws; pw_wpool := pw_wpool x;
      pw_tq := pw_tq x; pw_cq := pw_cq x; pw_tbody := pw_tbody x; pw_tprio := pw_tprio x; pw_pools := pw_pools x;
      pw_cur := pw_cur x; pw_cancel_tasks := pw_cancel_tasks x; pw_cancel_cos := pw_cancel_cos x;
-     pw_running_tasks := pw_running_tasks x; pw_spin := pw_spin x |}.
+     pw_running_tasks := pw_running_tasks x; pw_spin := pw_spin x; pw_tpool := pw_tpool x; pw_defects := pw_defects x |}.
 Definition set_tq (x : pw) (q : sys) : pw :=
   {| pw_clock := pw_clock x; pw_ts := pw_ts x; pw_cn := pw_cn x; pw_workers := pw_workers x; pw_wpool := pw_wpool x;
      pw_tq := q; pw_cq := pw_cq x; pw_tbody := pw_tbody x; pw_tprio := pw_tprio x; pw_pools := pw_pools x;
      pw_cur := pw_cur x; pw_cancel_tasks := pw_cancel_tasks x; pw_cancel_cos := pw_cancel_cos x;
-     pw_running_tasks := pw_running_tasks x; pw_spin := pw_spin x |}.
+     pw_running_tasks := pw_running_tasks x; pw_spin := pw_spin x; pw_tpool := pw_tpool x; pw_defects := pw_defects x |}.
 Definition set_cq (x : pw) (q : sys) : pw :=
   {| pw_clock := pw_clock x; pw_ts := pw_ts x; pw_cn := pw_cn x; pw_workers := pw_workers x; pw_wpool := pw_wpool x;
      pw_tq := pw_tq x; pw_cq := q; pw_tbody := pw_tbody x; pw_tprio := pw_tprio x; pw_pools := pw_pools x;
      pw_cur := pw_cur x; pw_cancel_tasks := pw_cancel_tasks x; pw_cancel_cos := pw_cancel_cos x;
-     pw_running_tasks := pw_running_tasks x; pw_spin := pw_spin x |}.
+     pw_running_tasks := pw_running_tasks x; pw_spin := pw_spin x; pw_tpool := pw_tpool x; pw_defects := pw_defects x |}.
 Definition set_clockp (x : pw) (c : Z) : pw :=
   {| pw_clock := c; pw_ts := pw_ts x; pw_cn := pw_cn x; pw_workers := pw_workers x; pw_wpool := pw_wpool x;
      pw_tq := pw_tq x; pw_cq := pw_cq x; pw_tbody := pw_tbody x; pw_tprio := pw_tprio x; pw_pools := pw_pools x;
      pw_cur := pw_cur x; pw_cancel_tasks := pw_cancel_tasks x; pw_cancel_cos := pw_cancel_cos x;
-     pw_running_tasks := pw_running_tasks x; pw_spin := pw_spin x |}.
+     pw_running_tasks := pw_running_tasks x; pw_spin := pw_spin x; pw_tpool := pw_tpool x; pw_defects := pw_defects x |}.
 Definition set_req (x : pw) (ts : list Z) (cn : list bool) : pw :=
   {| pw_clock := pw_clock x; pw_ts := ts; pw_cn := cn; pw_workers := pw_workers x; pw_wpool := pw_wpool x;
      pw_tq := pw_tq x; pw_cq := pw_cq x; pw_tbody := pw_tbody x; pw_tprio := pw_tprio x; pw_pools := pw_pools x;
      pw_cur := pw_cur x; pw_cancel_tasks := pw_cancel_tasks x; pw_cancel_cos := pw_cancel_cos x;
-     pw_running_tasks := pw_running_tasks x; pw_spin := pw_spin x |}.
+     pw_running_tasks := pw_running_tasks x; pw_spin := pw_spin x; pw_tpool := pw_tpool x; pw_defects := pw_defects x |}.
 Definition set_cur (x : pw) (p : nat) : pw :=
   {| pw_clock := pw_clock x; pw_ts := pw_ts x; pw_cn := pw_cn x; pw_workers := pw_workers x; pw_wpool := pw_wpool x;
      pw_tq := pw_tq x; pw_cq := pw_cq x; pw_tbody := pw_tbody x; pw_tprio := pw_tprio x; pw_pools := pw_pools x;
      pw_cur := p; pw_cancel_tasks := pw_cancel_tasks x; pw_cancel_cos := pw_cancel_cos x;
-     pw_running_tasks := pw_running_tasks x; pw_spin := pw_spin x |}.
+     pw_running_tasks := pw_running_tasks x; pw_spin := pw_spin x; pw_tpool := pw_tpool x; pw_defects := pw_defects x |}.
 Definition set_globals (x : pw) (ct : list nat) (cc : list nat) (rt : list (nat * nat)) : pw :=
   {| pw_clock := pw_clock x; pw_ts := pw_ts x; pw_cn := pw_cn x; pw_workers := pw_workers x; pw_wpool := pw_wpool x;
      pw_tq := pw_tq x; pw_cq := pw_cq x; pw_tbody := pw_tbody x; pw_tprio := pw_tprio x; pw_pools := pw_pools x;
-     pw_cur := pw_cur x; pw_cancel_tasks := ct; pw_cancel_cos := cc; pw_running_tasks := rt; pw_spin := pw_spin x |}.
+     pw_cur := pw_cur x; pw_cancel_tasks := ct; pw_cancel_cos := cc; pw_running_tasks := rt; pw_spin := pw_spin x; pw_tpool := pw_tpool x; pw_defects := pw_defects x |}.
 
 Definition set_spin (x : pw) : pw :=
   {| pw_clock := pw_clock x; pw_ts := pw_ts x; pw_cn := pw_cn x; pw_workers := pw_workers x; pw_wpool := pw_wpool x;
      pw_tq := pw_tq x; pw_cq := pw_cq x; pw_tbody := pw_tbody x; pw_tprio := pw_tprio x; pw_pools := pw_pools x;
      pw_cur := pw_cur x; pw_cancel_tasks := pw_cancel_tasks x; pw_cancel_cos := pw_cancel_cos x;
-     pw_running_tasks := pw_running_tasks x; pw_spin := true |}.
+     pw_running_tasks := pw_running_tasks x; pw_spin := true; pw_tpool := pw_tpool x; pw_defects := pw_defects x |}.
+
+(** defect tags: 1 (historic, repaired: the drop is now reported as Cancelled) a worker was dropped by a cancel; 2 a worker created by one pool was resumed by
+    another pool's pass; 3 a task's result was stored in a pool other than the one it was
+    submitted to *)
+Definition defect_dropped := 1%nat. Definition defect_stolen_worker := 2%nat. Definition defect_result_elsewhere := 3%nat.
+Definition add_defect (x : pw) (d : nat) : pw :=
+  {| pw_clock := pw_clock x; pw_ts := pw_ts x; pw_cn := pw_cn x; pw_workers := pw_workers x; pw_wpool := pw_wpool x;
+     pw_tq := pw_tq x; pw_cq := pw_cq x; pw_tbody := pw_tbody x; pw_tprio := pw_tprio x; pw_pools := pw_pools x;
+     pw_cur := pw_cur x; pw_cancel_tasks := pw_cancel_tasks x; pw_cancel_cos := pw_cancel_cos x;
+     pw_running_tasks := pw_running_tasks x; pw_spin := pw_spin x; pw_tpool := pw_tpool x;
+     pw_defects := if existsb (Nat.eqb d) (pw_defects x) then pw_defects x else d :: pw_defects x |}.
 
 Definition get_pool (x : pw) (p : nat) : pool := nth p (pw_pools x) (mk_pool 0 0 0).
 Definition upd_pool (x : pw) (p : nat) (f : pool -> pool) : pw :=
@@ -154,7 +167,7 @@ Definition try_grow (x : pw) (p : nat) : pw :=
                    pw_wpool := pw_wpool x ++ [p];
                    pw_tq := pw_tq x; pw_cq := pw_cq x; pw_tbody := pw_tbody x; pw_tprio := pw_tprio x;
                    pw_pools := pw_pools x; pw_cur := pw_cur x; pw_cancel_tasks := pw_cancel_tasks x;
-                   pw_cancel_cos := pw_cancel_cos x; pw_running_tasks := pw_running_tasks x; pw_spin := pw_spin x |} in
+                   pw_cancel_cos := pw_cancel_cos x; pw_running_tasks := pw_running_tasks x; pw_spin := pw_spin x; pw_tpool := pw_tpool x; pw_defects := pw_defects x |} in
       let x2 := set_cq x1 (fst (lpush (pw_cq x1) p 0 (Z.of_nat w))) in
       upd_pool x2 p (fun q => p_with_running (p_running q + 1) q).
 
@@ -186,6 +199,7 @@ Definition notify (x : pw) (p : nat) (t : nat) : pw :=
 Inductive fin := FinOk (x : pw) | FinPanic (x : pw).
 Definition finish_task (x : pw) (t : nat) (r : tres) : fin :=
   let p := pw_cur x in
+  let x := if Nat.eqb (nth t (pw_tpool x) p) p then x else add_defect x defect_result_elsewhere in
   let x := set_globals x (pw_cancel_tasks x) (pw_cancel_cos x) (assoc_del t (pw_running_tasks x)) in
   let q := get_pool x p in
   if mem_nat t (p_nowaits q) then
@@ -311,6 +325,7 @@ Definition wfuel (x : pw) : nat :=
 
 (** worker coroutine resume *)
 Definition k_resume (x : pw) (w : nat) : pw * res * list ev :=
+  let x := if Nat.eqb (nth w (pw_wpool x) (pw_cur x)) (pw_cur x) then x else add_defect x defect_stolen_worker in
   match get_worker x w with
   | None => (x, RBad, [])
   | Some k =>
@@ -375,8 +390,9 @@ Definition k_pop (p : nat) (x : pw) : pw * option nat :=
   | (q, _) => (set_cq x q, None)
   end.
 Definition k_cancelled (x : pw) (w : nat) : bool := mem_nat w (pw_cancel_cos x).
+(** called exactly when the pass drops worker [w] because it was cancelled *)
 Definition k_uncancel (x : pw) (w : nat) : pw :=
-  set_globals x (pw_cancel_tasks x) (remove_nat w (pw_cancel_cos x)) (pw_running_tasks x).
+  add_defect (set_globals x (pw_cancel_tasks x) (remove_nat w (pw_cancel_cos x)) (pw_running_tasks x)) defect_dropped.
 
 Inductive pres :=
 | PLeft (l : Z)            (* Ok(left_time) *)
@@ -521,7 +537,7 @@ Definition pstep (x : pw) (o : pop) : pw * pobs :=
                        pw_wpool := pw_wpool x; pw_tq := fst (lpush (pw_tq x) p pr (Z.of_nat t)); pw_cq := pw_cq x;
                        pw_tbody := pw_tbody x ++ [body]; pw_tprio := pw_tprio x ++ [pr]; pw_pools := pw_pools x;
                        pw_cur := pw_cur x; pw_cancel_tasks := pw_cancel_tasks x; pw_cancel_cos := pw_cancel_cos x;
-                       pw_running_tasks := pw_running_tasks x; pw_spin := pw_spin x |} in
+                       pw_running_tasks := pw_running_tasks x; pw_spin := pw_spin x; pw_tpool := pw_tpool x ++ [p]; pw_defects := pw_defects x |} in
           (x1, OSubmit true)
       | _ =>
           (* rejected: the task id is still consumed so that ids stay submission indices *)
@@ -529,7 +545,7 @@ Definition pstep (x : pw) (o : pop) : pw * pobs :=
               pw_wpool := pw_wpool x; pw_tq := pw_tq x; pw_cq := pw_cq x;
               pw_tbody := pw_tbody x ++ [[]]; pw_tprio := pw_tprio x ++ [0]; pw_pools := pw_pools x;
               pw_cur := pw_cur x; pw_cancel_tasks := pw_cancel_tasks x; pw_cancel_cos := pw_cancel_cos x;
-              pw_running_tasks := pw_running_tasks x; pw_spin := pw_spin x |}, OSubmit false)
+              pw_running_tasks := pw_running_tasks x; pw_spin := pw_spin x; pw_tpool := pw_tpool x ++ [p]; pw_defects := pw_defects x |}, OSubmit false)
       end
   | PPass p deadline => let '(x', r, e) := ppass x p deadline in (x', OPass r e)
   | PWait p t => let '(x', r) := pwait x p t in (x', OWait r)
@@ -547,4 +563,10 @@ Fixpoint prun (x : pw) (ops : list pop) : list pobs :=
   match ops with
   | [] => []
   | o :: ops' => let '(x', r) := pstep x o in r :: prun x' ops'
+  end.
+
+Fixpoint pfinal (x : pw) (ops : list pop) : pw :=
+  match ops with
+  | [] => x
+  | o :: ops' => pfinal (fst (pstep x o)) ops'
   end.
